@@ -323,6 +323,7 @@ class CSSSerializer:
             prefs = Preferences()
         self.prefs = prefs
         self._level = 0  # current nesting level
+        self._valuesOnly = False  # serializing a value without its comments
 
         # TODO:
         # SelectorLists of the preceding rules of the sheet being serialized,
@@ -1040,18 +1041,24 @@ class CSSSerializer:
             return ''
         else:
             out = Out(self)
-            for item in value.seq:
-                type_, val = item.type, item.value
-                if valuesOnly and type_ == cssutils.css.CSSComment:
-                    continue
-                elif hasattr(type(val), 'cssText'):
-                    # RGBColor or CSSValue if a CSSValueList
-                    out.append(val.cssText, type_)
-                else:
-                    if val and val[0] == val[-1] and val[0] in '\'"':
-                        val = helper.string(val[1:-1])
-                    # S must be kept! in between values but no extra space
-                    out.append(val, type_)
+            # nested values (functions, colors) must omit their comments too
+            outer = self._valuesOnly
+            self._valuesOnly = valuesOnly or outer
+            try:
+                for item in value.seq:
+                    type_, val = item.type, item.value
+                    if self._valuesOnly and type_ == cssutils.css.CSSComment:
+                        continue
+                    elif hasattr(type(val), 'cssText'):
+                        # RGBColor or CSSValue if a CSSValueList
+                        out.append(val.cssText, type_)
+                    else:
+                        if val and val[0] == val[-1] and val[0] in '\'"':
+                            val = helper.string(val[1:-1])
+                        # S must be kept! in between values but no extra space
+                        out.append(val, type_)
+            finally:
+                self._valuesOnly = outer
 
             return out.value()
 
@@ -1128,7 +1135,7 @@ class CSSSerializer:
             out = Out(self)
             for item in cssvalue.seq:
                 type_, val = item.type, item.value
-                if valuesOnly and type_ == cssutils.css.CSSComment:
+                if (valuesOnly or self._valuesOnly) and type_ == cssutils.css.CSSComment:
                     continue
                 out.append(val, type_)
             return out.value()
@@ -1142,7 +1149,7 @@ class CSSSerializer:
             for item in cssvalue.seq:
                 type_, val = item.type, item.value
 
-                if valuesOnly and type_ == cssutils.css.CSSComment:
+                if (valuesOnly or self._valuesOnly) and type_ == cssutils.css.CSSComment:
                     continue
                 elif hasattr(type(val), 'cssText'):
                     # RGBColor or CSSValue if a CSSValueList
